@@ -33,8 +33,8 @@ import (
 	"seehuhn.de/go/sfnt/post"
 
 	"verif/explore"
-	"verif/refcff"
 	"verif/gen"
+	"verif/refcff"
 	"verif/refcmap"
 	"verif/run"
 )
@@ -516,18 +516,18 @@ func c02Seeds(thorough bool) []*c02Seed {
 			wrap := func(lookupType int, sub []byte) []byte {
 				out := be16(1, 0, 10, 12, 14) // header; empty script and feature lists
 				out = append(out, be16(0, 0)...)
-				out = append(out, be16(1, 4)...)                 // lookup list: one lookup
+				out = append(out, be16(1, 4)...)                // lookup list: one lookup
 				out = append(out, be16(lookupType, 0, 1, 8)...) // lookup: one subtable
 				return append(out, sub...)
 			}
 			anchor := func(x, y int) []byte { return be16(1, x, y) }
-			gpos5 := be16(1, 12, 18, 1, 24, 36)       // format, mark cov, lig cov, class count, mark array, lig array
-			gpos5 = append(gpos5, be16(1, 1, 5)...)   // mark coverage: M
-			gpos5 = append(gpos5, be16(1, 1, 4)...)   // ligature coverage: L
-			gpos5 = append(gpos5, be16(1, 0, 6)...)   // mark array: one record, class 0
+			gpos5 := be16(1, 12, 18, 1, 24, 36)     // format, mark cov, lig cov, class count, mark array, lig array
+			gpos5 = append(gpos5, be16(1, 1, 5)...) // mark coverage: M
+			gpos5 = append(gpos5, be16(1, 1, 4)...) // ligature coverage: L
+			gpos5 = append(gpos5, be16(1, 0, 6)...) // mark array: one record, class 0
 			gpos5 = append(gpos5, anchor(10, 20)...)
-			gpos5 = append(gpos5, be16(1, 4)...)      // ligature array: one ligature
-			gpos5 = append(gpos5, be16(2, 6, 12)...)  // ligature attach: two components, one class
+			gpos5 = append(gpos5, be16(1, 4)...)     // ligature array: one ligature
+			gpos5 = append(gpos5, be16(2, 6, 12)...) // ligature attach: two components, one class
 			gpos5 = append(gpos5, anchor(100, 700)...)
 			gpos5 = append(gpos5, anchor(400, 700)...)
 			add(c02TableSeed("gtab.Read/GPOS", "GPOS5 mark-to-ligature (hand-assembled)", wrap(5, gpos5)))
@@ -850,7 +850,9 @@ func c02Corruptions(r *run.Run, seeds []*c02Seed) {
 			}
 			c.Sample(func() any { return seed.dec + " " + seed.name + " " + desc })
 			c.Shard(explore.KeyOf(si, k))
-			c02Check(c, seed, b, func() string { return fmt.Sprintf("seed %q with %s (%d bytes: %x)", seed.name, desc, len(b), b[:min(len(b), 96)]) })
+			c02Check(c, seed, b, func() string {
+				return fmt.Sprintf("seed %q with %s (%d bytes: %x)", seed.name, desc, len(b), b[:min(len(b), 96)])
+			})
 			if k == 0 {
 				// the seeds themselves must be accepted, otherwise the corruptions explore nothing
 				if _, err := seed.run(seed.data); err != nil {
